@@ -1,11 +1,94 @@
-import PyTrie.Model.Basic
-/-! Line-protocol front end for the `enc.*` commands (stub: to be filled in). -/
+import PyTrie.Model.Nibbles
+import PyTrie.Model.BinEnc
+import PyTrie.Model.HexDb
+/-! Line-protocol front end for the encoding utilities (`enc.*`).
+    Nibble lists: one hex digit per nibble, `t` = 16 (the terminator), `x` = 17 (an invalid nibble), `-` = empty.
+    Bit strings: `0`/`1` characters, `-` = empty. -/
 namespace PyTrie.EncDrv
+open PyTrie.Nibbles PyTrie.Bin
 
 structure St where
   dummy : Unit := ()
   deriving Inhabited
 
-def step (st : St) (_cmd : String) (_args : List String) : St × String := (st, "bad-op")
+def parseNibs (s : String) : Option (List Nat) :=
+  if s = "-" then some [] else
+  s.toList.mapM fun c => if c = 't' then some 16 else if c = 'x' then some 17 else hexVal c
+
+def showNibs (l : List Nat) : String :=
+  if l.isEmpty then "-" else String.ofList (l.map fun n => if n = 16 then 't' else if n < 16 then hexDigit n else 'x')
+
+def parseBits (s : String) : Option Bits :=
+  if s = "-" then some [] else s.toList.mapM fun c => if c = '0' then some false else if c = '1' then some true else none
+
+def showBits (b : Bits) : String := if b.isEmpty then "-" else String.ofList (b.map fun x => if x then '1' else '0')
+
+def fmtNErr : Nibbles.Err → String
+  | .invalidNibbles => "exn InvalidNibbles"
+  | .indexError => "exn IndexError"
+
+def pathNats (p : Hex.Path) : List Nat := p.map (·.val)
+
+def step (st : St) (cmd : String) (args : List String) : St × String :=
+  let bad := (st, "bad-op")
+  match cmd, args with
+  | "hp", [ns] =>
+    match parseNibs ns with
+    | some ns => (st, match encodeNibbles ns with | .ok b => toHex b | .error e => fmtNErr e)
+    | none => bad
+  | "hpdec", [b] =>
+    match ofHex b with
+    | some b => (st, match decodeNibbles b with | .ok ns => showNibs ns | .error e => fmtNErr e)
+    | none => bad
+  | "b2n", [b] => match ofHex b with | some b => (st, showNibs (bytesToNibbles b)) | none => bad
+  | "n2b", [ns] =>
+    match parseNibs ns with
+    | some ns => (st, match nibblesToBytes ns with | .ok b => toHex b | .error e => fmtNErr e)
+    | none => bad
+  | "addterm", [ns] => match parseNibs ns with | some ns => (st, showNibs (addTerminator ns)) | none => bad
+  | "remterm", [ns] => match parseNibs ns with | some ns => (st, showNibs (removeTerminator ns)) | none => bad
+  | "tobin", [b] => match ofHex b with | some b => (st, showBits (toBits b)) | none => bad
+  | "frombin", [bs] => match parseBits bs with | some bs => (st, toHex (ofBits bs)) | none => bad
+  | "kp", [bs] => match parseBits bs with | some bs => (st, toHex (encodeKeypath bs)) | none => bad
+  | "kpdec", [b] =>
+    match ofHex b with
+    | some b => (st, match decodeKeypath b with
+        | .ok bits => showBits bits
+        | .error .index => "exn IndexError"
+        | .error .assertion => "exn AssertionError")
+    | none => bad
+  | "parse", [b] =>
+    match ofHex b with
+    | some b => (st, match parseNode b with
+        | .ok (.branch l r) => s!"branch {toHex l} {toHex r}"
+        | .ok (.kv p c) => s!"kv {showBits p} {toHex c}"
+        | .ok (.leaf v) => s!"leaf {toHex v}"
+        | .error .invalidNode => "exn InvalidNode"
+        | .error .assertion => "exn AssertionError"
+        | .error .index => "exn IndexError")
+    | none => bad
+  | "kv", [p, c] =>
+    match parseBits p, ofHex c with
+    | some p, some c => (st, match encodeKv p c with | .ok b => toHex b | .error _ => "exn ValidationError")
+    | _, _ => bad
+  | "br", [l, r] =>
+    match ofHex l, ofHex r with
+    | some l, some r => (st, match encodeBranch l r with | .ok b => toHex b | .error _ => "exn ValidationError")
+    | _, _ => bad
+  | "leaf", [v] =>
+    match ofHex v with
+    | some v => (st, match encodeLeaf v with | .ok b => toHex b | .error _ => "exn ValidationError")
+    | none => bad
+  -- get_node_type + extract_key of a decoded hexary node given by its rlp encoding
+  | "hexnode", [b] =>
+    match (ofHex b).bind HexD.rlpDecode with
+    | some it => (st, match HexD.classify it with
+        | .blank => "blank"
+        | .leaf p _ => s!"leaf {showNibs (pathNats p)}"
+        | .ext p _ => s!"ext {showNibs (pathNats p)}"
+        | .branch _ => "branch"
+        | .invalid => "invalid")
+    | none => bad
+  | _, _ => bad
 
 end PyTrie.EncDrv
